@@ -10,11 +10,17 @@ cleanup() { git -C /repo worktree remove --force $W >/dev/null 2>&1; rm -rf $W; 
 trap cleanup EXIT
 cd $W
 # place demo files
-declare -a DEMOS
+declare -a DEMOS=()
 while read -r line; do
   p=$(echo "$line" | grep -oE '[A-Za-z0-9_.-]+(/[A-Za-z0-9_.-]+)+\.go' | grep -v '^_out' | head -1)
   [ -z "$p" ] && continue
   f=$(basename "$p")
+  # "source.go -> target/path.go": the demo is stored under another name than it must be placed
+  if echo "$line" | grep -q -- '->'; then
+    src=$(echo "$line" | sed 's/ *->.*//' | grep -oE '[A-Za-z0-9_.-]+\.go' | tail -1)
+    p=$(echo "$line" | sed 's/.*-> *//' | grep -oE '[A-Za-z0-9_.-]+(/[A-Za-z0-9_.-]+)+\.go' | head -1)
+    [ -n "$src" ] && f=$src
+  fi
   if [ -f "$D/$f" ]; then mkdir -p "$(dirname "$p")"; cp "$D/$f" "$p"; DEMOS+=("$p"); fi
 done < "$D/demo_path.txt"
 if [ ${#DEMOS[@]} -eq 0 ]; then echo "CONFIRM: no demo placed"; exit 2; fi
